@@ -7,6 +7,14 @@ PROPS = {
         rules=["HdrFields", "FlagAlgebra"],
         shards=8,
     ),
+    "C06": dict(
+        mc=["MC_NameWire"],
+        never_ok=["OOBRead"],   # the out-of-bounds read must be unreachable in the (repaired) design
+        gen=[dict(module="Gen_NameWire", cfg="Gen_NameWire.cfg", cfg_thorough="Gen_NameWire_thorough.cfg", out="name_cases.ndjson")],
+        topic="name",
+        rules=["NoPanic", "NameRef", "NameMustErr"],
+        shards=12,
+    ),
     "C18": dict(
         mc=["MC_Codes"],
         topic="codes",
@@ -38,5 +46,16 @@ TEXT = {
               "own consistency is model-checked (MC_Codes)."),
         note=_TRUSTED,
         technique="TLA+ spec (Codes.tla) + TLC + exhaustive trace validation of the real code's outputs",
+    ),
+    "C06": dict(
+        text=("Bounded-exhaustive: TLC enumerates every buffer up to length L (4 quick, 5 thorough) over the boundary "
+              "alphabet {0,1,2,3,63,64,0x80,0xC0..0xC3,'a'}; the real crate decodes a name at every start offset of "
+              "every buffer, plus real-constant families (label 62..65 bytes, names of 250..258 bytes direct and via a "
+              "pointer tail, every pointer shape, chains up to 2000 hops) and seeded random buffers; TLC judges each "
+              "result against RefDecodeName (RFC 1035 4.1.4) in the trace specification: labels, resume cursor, and "
+              "the mandatory errors. The crate's parsing loop is also modelled action by action (MC_NameWire) and "
+              "model-checked to refine the reference decoder and never read out of bounds, with scaled constants."),
+        note=_TRUSTED,
+        technique="TLA+ Ref decoder + Impl loop refinement checked by TLC; TLC-generated buffers replayed into the crate; results validated by the trace spec",
     ),
 }
